@@ -1057,6 +1057,8 @@ def run(chk):
     chk.guard(_variants.apply_wrappers, chk, "C02-R9", {"simultaneous", "fords", "steadiers", "stacked_time"})
     from .. import once as _once
     chk.guard(_once.apply, chk, "C02-R8")
+    from . import c08 as _c08
+    chk.guard(_c08.rule_r10, chk, rid="C02-R10")
     from .. import args as _args
     chk.guard(_args.apply, chk, "C02-R90", {'aldi', 'jacobians', 'period_by_period', 'stacked_time', 'steadiers'}, 1)
     chk.assumptions = [
